@@ -207,6 +207,19 @@ def _machine(repo, sc, tr, counters, entry):
         if name.endswith("running_state.clear") or name == "RS.clear":
             tr.events.append(Ev("CLEAR"))
             return None
+        if (name.startswith("self.running_state.") or name.startswith("RS.")) and name.count(".") <= 2:
+            # any other method of the record buffer called by the runner: harmless if it only reads; if it stores into the buffers or
+            # moves the cursor the model of the records (cursor increments and clear) no longer describes the program
+            RSc = repo.cls(RUNNER, "RunningState")
+            meth = RSc.methods.get(short)
+            if meth is not None:
+                writes = [ast.unparse(x)[:60] for x in ast.walk(meth.node)
+                          if (isinstance(x, (ast.Subscript, ast.Attribute)) and isinstance(getattr(x, "ctx", None), (ast.Store, ast.Del)))
+                          or (isinstance(x, ast.Call) and isinstance(x.func, ast.Attribute) and x.func.attr in ("clear", "pop", "update", "fill", "append"))]
+                if writes:
+                    raise AnalysisError(f"Runner.{entry} calls RunningState.{short}(), which modifies the record buffer ({writes[0]}): outside the model "
+                                        "of the per-step records (append by the update, cursor += 1 per step, clear with each frame)")
+                return Opaque(f"RS.{short}()")
         if short in ("lower", "startswith", "strip") and isinstance(node.func, ast.Attribute):
             recv = m.ev(node.func.value)
             if isinstance(recv, str):
